@@ -517,3 +517,69 @@ EDITS["addrows_addcols_atomic"] = [
 		{
 			rval = EGLPNUM_TYPENAME_ILLlib_addcol (lp, B, cmatcnt[i], cmatind + cmatbeg[i],'''),
 ]
+
+# ---- C05 ------------------------------------------------------------------------------------
+EDITS["range_edits_update_logical"] = [
+ # DESIGN 10 #4: a row made 'R' gets the logical ILLlib_addrow gives a ranged row (-1, [0, range])
+ ("qsopt_ex/lib.c", '''			qslp->sense[rowlist[i]] = 'R';
+			EGLPNUM_TYPENAME_EGlpNumZero(qslp->lower[j]);
+			EGLPNUM_TYPENAME_EGlpNumZero(qslp->upper[j]);
+			EGLPNUM_TYPENAME_EGlpNumOne(A->matval[k]);
+			break;''', '''			qslp->sense[rowlist[i]] = 'R';
+			EGLPNUM_TYPENAME_EGlpNumZero(qslp->lower[j]);
+			if (qslp->rangeval)
+				EGLPNUM_TYPENAME_EGlpNumCopy(qslp->upper[j], qslp->rangeval[rowlist[i]]);
+			else
+				EGLPNUM_TYPENAME_EGlpNumZero(qslp->upper[j]);
+			EGLPNUM_TYPENAME_EGlpNumOne(A->matval[k]);
+			EGLPNUM_TYPENAME_EGlpNumSign(A->matval[k]);
+			break;'''),
+ # DESIGN 10 #3: the range is the upper bound of the row's logical
+ ("qsopt_ex/lib.c", '''	EGLPNUM_TYPENAME_EGlpNumCopy(qslp->rangeval[indx], coef);
+''', '''	EGLPNUM_TYPENAME_EGlpNumCopy(qslp->rangeval[indx], coef);
+	EGLPNUM_TYPENAME_EGlpNumCopy(qslp->upper[qslp->rowmap[indx]], coef);
+'''),
+]
+EDITS["edit_drops_norms"] = [
+ ("qsopt_ex/qsopt.c", '''	p->factorok = 0;	/* the coefficient of a logical may have changed sign */
+	free_cache (p);''', '''	p->factorok = 0;	/* the coefficient of a logical may have changed sign */
+	if (p->basis)
+	{		/* edge norms of the stored basis belong to the old basis matrix */
+		EGLPNUM_TYPENAME_EGlpNumFreeArray (p->basis->rownorms);
+		EGLPNUM_TYPENAME_EGlpNumFreeArray (p->basis->colnorms);
+	}
+	free_cache (p);'''),
+ ("qsopt_ex/qsopt.c", '''	p->factorok = 0;	/* the basis matrix may have changed */
+	free_cache (p);''', '''	p->factorok = 0;	/* the basis matrix may have changed */
+	if (p->basis)
+	{		/* edge norms of the stored basis belong to the old basis matrix */
+		EGLPNUM_TYPENAME_EGlpNumFreeArray (p->basis->rownorms);
+		EGLPNUM_TYPENAME_EGlpNumFreeArray (p->basis->colnorms);
+	}
+	free_cache (p);'''),
+]
+EDITS["simplex_reload_frees_other_norms"] = [
+ ("qsopt_ex/simplex.c", '''			else
+				EGLPNUM_TYPENAME_EGlpNumFreeArray (pinf->dsinfo.norms);
+		}''', '''			else
+				EGLPNUM_TYPENAME_EGlpNumFreeArray (pinf->dsinfo.norms);
+			/* norms kept for the other algorithm describe an older basis (and size) */
+			EGLPNUM_TYPENAME_EGlpNumFreeArray (pinf->psinfo.norms);
+		}'''),
+ ("qsopt_ex/simplex.c", '''			else
+				EGLPNUM_TYPENAME_EGlpNumFreeArray (pinf->psinfo.norms);
+		}''', '''			else
+				EGLPNUM_TYPENAME_EGlpNumFreeArray (pinf->psinfo.norms);
+			/* norms kept for the other algorithm describe an older basis (and size) */
+			EGLPNUM_TYPENAME_EGlpNumFreeArray (pinf->dsinfo.norms);
+		}'''),
+]
+EDITS["addrows_rownorms_realloc"] = [
+ # ILLlp_basis.rownorms_size is never assigned: the guard reads an uninitialised int and skips the reallocation
+ ("qsopt_ex/lib.c", '''		if (B->rownorms_size < lp->O->nrows + num)
+			EGLPNUM_TYPENAME_EGlpNumReallocArray (&(B->rownorms), lp->O->nrows + num);''',
+  '''		EGLPNUM_TYPENAME_EGlpNumReallocArray (&(B->rownorms), lp->O->nrows + num);'''),
+ ("qsopt_ex/lib.c", '''		if (B->rownorms_size < lp->O->nrows)
+			EGLPNUM_TYPENAME_EGlpNumReallocArray (&(B->rownorms), lp->O->nrows);''',
+  '''		EGLPNUM_TYPENAME_EGlpNumReallocArray (&(B->rownorms), lp->O->nrows);'''),
+]
